@@ -202,6 +202,7 @@ Definition ErrNotFoundRuleEnum : N := 1113.
 Definition ErrNotFoundRuleOr : N := 1114.
 Definition ErrUnexpectedConstraint : N := 1117.
 Definition ErrEnumRuleNotFound : N := 1602.
+Definition ErrIncorrectConstraintValueForEmptyArray : N := 1204.
 Definition err {A} (c : N) : R A := Fail (FErr c).
 
 (* ------------------------------------------------------------------ constraint types (constraint/type.go) *)
@@ -256,7 +257,7 @@ Inductive cval :=
 | VOr (gen : bool)
 | VEnum (items : list eitem) (rule : option bytes)
 | VAddProps (a : rast)
-| VAllOf (names : list bytes)
+| VAllOf (names : list bytes) (written_as_array : bool)   (* fix 1d20475: ["@a"] is not the scalar "@a" in the AST *)
 | VRegex (expr : bytes)
 | VMark.                                               (* any email uri uuid date datetime *)
 
@@ -296,10 +297,10 @@ Definition ast_of (v : cval) : rast :=
                  [] false
     end
   | VAddProps a => a
-  | VAllOf names =>
-    match names with
-    | [n] => ra "reference" n false
-    | _ => RA (of_string "array") [] [] (map (fun n => ra "reference" n false) names) [] false
+  | VAllOf names arr =>
+    match names, arr with
+    | [n], false => ra "reference" n false
+    | _, _ => RA (of_string "array") [] [] (map (fun n => ra "reference" n false) names) [] false
     end
   | VRegex e => ra "string" e false
   | VMark => ra "" [] false
@@ -338,9 +339,11 @@ Definition new_regex (env : envt) (v : bytes) : R cval :=
   else Fail FGo.
 Definition new_additional_properties (v : bytes) : R cval :=
   let txt := unquote v in
-  if is "true" txt then Ok (VAddProps (ra "boolean" txt false))
+  (* fix 1d20475: true and false written as strings are shown as strings *)
+  let bool_tt := if in_quotes v then "string"%string else "boolean"%string in
+  if is "true" txt then Ok (VAddProps (ra bool_tt txt false))
   else if is "any" txt then Ok (VAddProps (ra "string" txt false))
-  else if is "false" txt then Ok (VAddProps (ra "boolean" txt false))
+  else if is "false" txt then Ok (VAddProps (ra bool_tt txt false))
   else if (is_user_type_name txt || is_valid_schema_type txt)%bool then Ok (VAddProps (ra "string" txt false))
   else err ErrUnknownJSchemaType.
 
@@ -491,6 +494,11 @@ Definition compile_mixed (t0 : jt) (m0 : cmap) : R (jt * cmap) :=
      end);
   (* optionalConstraints: the parent of the root is not an object *)
   if chas COptional m then err ErrRuleOptionalAppliesOnlyToObjectProperties
+  (* emptyArray (fix 60afd49): the array of a rule-set has no items, it is the empty array *)
+  else if (jt_eqb t JArray &&
+           (match uint_of CMinItems m with Some a => negb (N.eqb a 0) | None => false end ||
+            match uint_of CMaxItems m with Some a => negb (N.eqb a 0) | None => false end))%bool
+       then err ErrIncorrectConstraintValueForEmptyArray
   else Ok (t, m).
 
 (* Constraint.IsJsonTypeCompatible *)
@@ -505,6 +513,8 @@ Definition compat (c : ctype) (t : jt) : bool :=
   | CEnum => match t with JString | JBoolean | JInteger | JFloat | JNull | JMixed => true | _ => false end
   | CConst => negb (jt_eqb t JObject || jt_eqb t JArray)%bool
   end.
+(* json.AllTypes *)
+Definition all_jts : list jt := [JObject; JArray; JString; JInteger; JFloat; JBoolean; JNull; JMixed].
 (* the keys of jsonTypesHandler *)
 Definition is_handler_type (b : bytes) : bool :=
   existsb (fun s => is s b) ["mixed"; "enum"; "any"; "decimal"; "email"; "uri"; "uuid"; "date"; "datetime"]%string.
@@ -645,7 +655,12 @@ Definition node_add (d : ndata) (e : centry) : R ndata :=
   match nd_kind d with
   | KMix =>
     match ce_v e with
-    | VType _ _ => mixed_add_type d e false
+    | VType _ _ =>
+      (* a second hand-written type rule is a duplicate whatever the values (fix 76cb707) *)
+      match cget CType (nd_cs d) with
+      | Some (mkce _ (VType _ false) _) => err ErrDuplicateRule
+      | _ => mixed_add_type d e false
+      end
     | VOr _ =>
       (* addOrConstraint *)
       do d1 <-
@@ -690,10 +705,11 @@ Fixpoint enum_append_all (toks : list bytes) (en : enumv) : R enumv :=
   | [] => Ok en
   | t :: r => do en' <- enum_append t [] en; enum_append_all r en'
   end.
-(* Enum.SetComment(lastIdx, ...): lastIdx is the index of the last appended item, 0 before *)
+(* Enum.SetComment(lastIdx, ...): lastIdx is the index of the last appended item; before the first
+   item the comment is dropped (fix 6901580; it was an index out of range before) *)
 Definition enum_set_comment (c : bytes) (en : enumv) : R enumv :=
   match frev (en_items en) with
-  | [] => Fail FGo                           (* index out of range *)
+  | [] => Ok en
   | l :: r => Ok (mkenumv (frev (mkeitem (ei_value l) (ei_jt l) c :: r)) (en_rule en) (en_w en))
   end.
 
@@ -785,12 +801,12 @@ Definition allof_append (tok : bytes) (names : list bytes) : R (list bytes) :=
        if is_user_type_name s then Ok (names ++ [s]) else err ErrInvalidSchemaNameInAllOfRule.
 Definition allof_step_in (S : src) (s : allof_st) (e : lexev) (m : cmap) : R (allof_st * cmap * bool) :=
   match cget CAllOf m with
-  | Some (mkce _ (VAllOf names) (Some w)) =>
+  | Some (mkce _ (VAllOf names arr) (Some w)) =>
     let go s' := Ok (s', m, true) in
     match s with
     | AoBegin =>
       match e_type e with
-      | ArrayBegin => Ok (AoItemOrEnd, creplace (mkce CAllOf (VAllOf names) (Some (RArr []))) m, true)
+      | ArrayBegin => Ok (AoItemOrEnd, creplace (mkce CAllOf (VAllOf names true) (Some (RArr []))) m, true)
       | LiteralBegin => go AoScalar
       | _ => err ErrUnacceptableValueInAllOfRule
       end
@@ -805,7 +821,7 @@ Definition allof_step_in (S : src) (s : allof_st) (e : lexev) (m : cmap) : R (al
       | LiteralBegin => go AoItemValue
       | LiteralEnd =>
         do v <- evalue S e; do names' <- allof_append v names;
-        Ok (AoItemEnd, creplace (mkce CAllOf (VAllOf names') (Some (w_append w (RLit v)))) m, true)
+        Ok (AoItemEnd, creplace (mkce CAllOf (VAllOf names' arr) (Some (w_append w (RLit v)))) m, true)
       | _ => err ErrUnacceptableValueInAllOfRule
       end
     | AoItemEnd =>
@@ -814,7 +830,7 @@ Definition allof_step_in (S : src) (s : allof_st) (e : lexev) (m : cmap) : R (al
       match e_type e with
       | LiteralEnd =>
         do v <- evalue S e; do names' <- allof_append v names;
-        Ok (AoEnd, creplace (mkce CAllOf (VAllOf names') (Some (RLit v))) m, false)
+        Ok (AoEnd, creplace (mkce CAllOf (VAllOf names' arr) (Some (RLit v))) m, false)
       | _ => err ErrUnacceptableValueInAllOfRule
       end
     | AoEnd => err ErrLoader
@@ -889,8 +905,10 @@ Definition make_type_from_rule_set (d : ndata) (r : rsl) : R ndata :=
       do c <- catch (nd_lb d) (compile_mixed (rs_jt r) m);      (* CompileBasic(&typ, false) *)
       (* checkCompatibilityOfConstraints *)
       do _ <-
-        (if (Nat.eqb (length declared) 0 || is_handler_type declared)%bool then Ok tt
-         else if forallb (fun e => compat (ce_t e) (fst c)) (snd c) then Ok tt
+        (* without a declared JSON type the rule-set may describe any JSON type; every rule narrows the
+           list down, and a rule that leaves nothing is refused (fix 0e80d2e) *)
+        (let cand := if (Nat.eqb (length declared) 0 || is_handler_type declared)%bool then all_jts else [fst c] in
+         if existsb (fun t => forallb (fun e => compat (ce_t e) t) (snd c)) cand then Ok tt
          else err ErrUnexpectedConstraint);
       types_add d false an w.
 
@@ -905,7 +923,8 @@ Definition rs_step (S : src) (env : envt) (d : ndata) (r : rsl) (e : lexev) : R 
      | ObjectKeyBegin => Ok (r, d, true)
      | ObjectKeyEnd =>
        do v <- evalue S e;
-       Ok (mkrsl (if is "enum" v then RsEnumValueBegin else RsValueBegin) (rs_jt r) (rs_cs r)
+       (* the name is trimmed and unquoted like every other rule name (fix 405400c) *)
+       Ok (mkrsl (if is "enum" (unquote (trim_spaces v)) then RsEnumValueBegin else RsValueBegin) (rs_jt r) (rs_cs r)
                  (e_begin e) (e_end e), d, true)
      | ObjectEnd =>
        do d' <- make_type_from_rule_set d r; Ok (rs_set RsEnd r, d', false)
@@ -1003,7 +1022,8 @@ Definition or_step (S : src) (env : envt) (s : or_st) (rs : option rsl) (d : nda
              Ok (OrItemEnd, None, d', true)
            else
              do t <- node_guess S d;
-             do c <- catch (nd_lb d) (compile_mixed t [mkce CType (VType val false) None]);
+             (* the item as written, like the value of a "type" rule: the compiler unquotes it once (fix 86f69d0) *)
+             do c <- catch (nd_lb d) (compile_mixed t [mkce CType (VType v false) None]);
              do d' <- types_add d false (ra "string" (schema_type_of (fst c) (snd c)) false) (RLit v);
              Ok (OrItemEnd, None, d', true)
          | Some _ => err ErrIncorrectArrayItemTypeInOrRule
@@ -1075,7 +1095,10 @@ Definition rl_step (S : src) (env : envt) (r : rl) (e : lexev) : R rl :=
      match e_type e with
      | InlineAnnotationTextEnd | MultiLineAnnotationTextEnd =>
        match rl_node r with
-       | Some d => do v <- evalue S e; Ok (rl_set_node (set_note (trim_spaces v) d) REnd r)
+       | Some d =>
+         (* fix f7150cd: a note on a line without an example belongs to no node *)
+         if N.eqb (rl_cnt r) 0 then Ok (rl_set REnd r)
+         else do v <- evalue S e; Ok (rl_set_node (set_note (trim_spaces v) d) REnd r)
        | None => Ok (rl_set REnd r)
        end
      | _ => err ErrLoader
@@ -1113,7 +1136,7 @@ Definition rl_step (S : src) (env : envt) (r : rl) (e : lexev) : R rl :=
            do d1 <- node_add d (enum_entry new_enum);
            load_embedded S env r (EmbEnum EnBegin) d1 e
          else if is "allOf" name then
-           do d1 <- node_add d (mkce CAllOf (VAllOf []) (Some (RArr [])));
+           do d1 <- node_add d (mkce CAllOf (VAllOf [] false) (Some (RArr [])));
            load_embedded S env r (EmbAllOf AoBegin) d1 e
          else
            match e_type e with
